@@ -60,6 +60,23 @@ def desc_matches(desc, cells):
         return "unreadable descriptor %r (%r)" % (cells, e)
 
 
+LOCATION_NAMES = {"location": "id", "id": "id", "lat": "lat", "lon": "lon", "elev": "elev", "altitude": "elev"}
+
+
+def named_location_cells(desc, names, cells):
+    """the header NAMES the descriptor columns: where it uses the usual names, the cell under `lat` is the latitude, and so on"""
+    keys = [LOCATION_NAMES.get(str(h).strip().lower()) for h in names]
+    if len(keys) != len(cells) or None in keys or len(set(keys)) != len(keys):
+        return None
+    for key, cell in zip(keys, cells):
+        try:
+            if abs(float(cell) - float(desc[key])) > 1e-6:
+                return "the column headed %r holds %r, but the slice's %s is %r (header %r)" % (names[keys.index(key)], cell, key, desc[key], list(names))
+        except (ValueError, KeyError):
+            return None
+    return None
+
+
 def compare(expected_rows, legend, header, rows, sig, axis):
     """expected_rows: list of {desc, scores(Expr)}; returns list of messages"""
     n = len(legend)
@@ -76,6 +93,8 @@ def compare(expected_rows, legend, header, rows, sig, axis):
         desc = dict(er["desc"])
         desc["axis_name"] = axis
         m = desc_matches(desc, row[:-n])
+        if m is None and desc.get("kind") == "location":
+            m = named_location_cells(desc, header[:-n], row[:-n])
         if m:
             msgs.append("row %d: %s" % (k + 1, m))
         for i in range(n):
